@@ -134,6 +134,15 @@ def rule_a(ctx: Context, R: Reporter, fi: FuncInfo):
                         ub = -c0 - (1 if strict else 0)  # j <= L + ub
                         if ub + need_margin <= -1:
                             ok = True
+                # the comb advances only while the position lies strictly beyond the running sum: with `>=` a position
+                # that equals a cumulative weight exactly moves on to the next (possibly zero-weight) index
+                for (atom, pol) in split_cond(w.ast, True):
+                    if isinstance(atom, ast.Compare) and len(atom.ops) == 1 and not any(isinstance(x, ast.Name) and x.id == j for x in ast.walk(atom)) \
+                            and any(isinstance(x, ast.Subscript) for x in ast.walk(atom)):
+                        strict = isinstance(atom.ops[0], (ast.Gt, ast.Lt))
+                        R.check("C06.a", "the comb comparison is strict", strict, fi, atom,
+                                msg=f"{fi.short}: `{unparse(atom)}` is not strict: a comb position equal to a cumulative weight (reachable when the weights sum to exactly one and the "
+                                    f"offset rounds to the boundary) is attributed to the following index, which may have zero weight (copies outside floor/ceil of n*w)", key="comb-strict")
                 clamp = False
                 # clamp idiom: arr[min(j, len(arr)-1)] is not this subscript form; accept np.minimum/min on the increment
                 R.check(
